@@ -65,7 +65,8 @@ def gen_sarif_doc(rng, uid, own_tool):
         results = []
         for _ in range(rng.randint(0, 4)):
             uid[0] += 1
-            rid = rng.choice(SARIF_RULES) if tool != "foreign" else "foreign/" + rng.choice(["x", "y"])
+            # a foreign tool may well use a rule id our tool also has: its results still are not ours
+            rid = rng.choice(SARIF_RULES) if tool != "foreign" or rng.random() < 0.3 else "foreign/" + rng.choice(["x", "y"])
             l = uid[0]  # unique line -> every finding is attributable
             region = {"startLine": l, "startColumn": rng.randint(1, 9), "endLine": l, "endColumn": rng.randint(10, 40)}
             if own_tool == "codeql" and rng.random() < 0.2:
@@ -76,6 +77,13 @@ def gen_sarif_doc(rng, uid, own_tool):
             res = {"message": {"text": f"m{uid[0]}"}, "locations": [{"physicalLocation": {"artifactLocation": {"uri": rng.choice(FILES)}, "region": region}}]}
             if region is None:
                 del res["locations"][0]["physicalLocation"]["region"]
+            elif rng.random() < 0.2:
+                # one result, several locations: in the same file and / or in another one
+                for _ in range(rng.randint(1, 2)):
+                    uid[0] += 1
+                    res["locations"].append({"physicalLocation": {
+                        "artifactLocation": {"uri": res["locations"][0]["physicalLocation"]["artifactLocation"]["uri"] if rng.random() < 0.5 else rng.choice(FILES)},
+                        "region": {"startLine": uid[0], "startColumn": 1, "endLine": uid[0], "endColumn": 9}}})
             if tool != "foreign" and rng.random() < 0.25:
                 res["rule"] = {"toolComponent": {"index": 0}, "index": SARIF_RULES.index(rid)}
             else:
@@ -289,7 +297,11 @@ class C12(Check):
                     results[name] = enc(json.dumps(W.make_result_doc(kind, [])).encode())
                     names.insert(rng.randrange(len(names) + 1), name)
                 rng.shuffle(names)
-            if kind.startswith("sonar") and len(names) >= 2 and rng.random() < 0.6:
+            if kind.startswith("sonar") and rng.random() < 0.15:
+                # one export holding issues and hotspots is naturally given to both options: still one delivery of each finding
+                both = ",".join(f"<R>/{n}" for n in names)
+                opts += ["--sonar-issues-json", both, "--sonar-hotspots-json", both]
+            elif kind.startswith("sonar") and len(names) >= 2 and rng.random() < 0.6:
                 # Sonar result files may arrive through both options in one invocation (documents keep their own key)
                 cut = rng.randrange(1, len(names))
                 opts += ["--sonar-issues-json", ",".join(f"<R>/{n}" for n in names[:cut]),
